@@ -86,6 +86,9 @@ func runC14(r *Run) {
 	for h := 0; h < 1+nHist/100; h++ {
 		c14Burst(r, h)
 	}
+	for h := 0; h < 2+nHist/10; h++ {
+		c14AfterFailedAttempt(r, h)
+	}
 }
 
 // c14Burst: a handler that stalls while 6000 row insertions are applied (far fewer than the event buffer of
